@@ -83,6 +83,23 @@ def work(job):
                            idclass=rnd.choice(["none", "dense"]), label="m%d" % i)
         files = {rel: trees.mutate(d, rnd) for rel, d in t.files.items()}
         files["src/keep.rs"] = b'fn keep() { info!("one readable file"); }\n'
+    elif kind == "counts":
+        # counters must not saturate or wrap: many statements in one file, many files, files without statements in between
+        nst, nfi = payload
+        files = {}
+        for fi in range(nfi):
+            body = "".join('    info!("f%d statement %d");\n' % (fi, k) if (k % 7) else '    info!("[ref: %d] has one");\n' % (1000 + k) for k in range(nst))
+            files["src/many/f%04d.rs" % fi] = ("fn f%d() {\n%s}\n" % (fi, body)).encode()
+            if fi % 5 == 0:
+                files["src/many/empty%04d.rs" % fi] = b"// no statements here\n"
+        structured = False
+    elif kind == "crafted":
+        from . import c17
+        # (inputs carrying a reference at the top of the ID range would - correctly - make the edit run fail with "range
+        #  exhausted"; C05 compares successful runs, so they are left to C01/C17)
+        files = {"src/c%04d.rs" % k: d for k, d in enumerate(list(c17.CRAFTED)[payload::3]) if len(d) < 30000 and b"42949672" not in d}
+        files["src/keep.rs"] = b'fn keep() { info!("one readable file"); }\n'
+        structured = (i % 2 == 1)
     elif kind in ("corpus", "corpusmut"):
         label, files = payload
         if kind == "corpusmut":
@@ -139,6 +156,10 @@ def main(tier):
     quick = tier == "quick"
     jobs = [(built, "gen", ck.seed, i, None) for i in range(3000 if quick else 30000)]
     jobs += [(built, "genmut", ck.seed, i, None) for i in range(1500 if quick else 15000)]
+    for i, (nst, nfi) in enumerate([(300, 1), (1, 300), (70, 40), (257, 3), (1100, 2)] + ([] if quick else [(4000, 1), (2, 3000), (66000 // 64, 64)])):
+        jobs.append((built, "counts", ck.seed, i, (nst, nfi)))
+    for i in range(6):
+        jobs.append((built, "crafted", ck.seed, i, i % 3))
     shards, reg = trees.corpus_shards(rnd, 16, registry_n=0 if quick else 1500)
     for i, sh in enumerate(shards):
         jobs.append((built, "corpus", ck.seed, i, sh))
